@@ -466,3 +466,21 @@ def close_monitors_suspended(model, info, art):
     e = asyncio.run(go())
     ok = e is None and [n for n, d in out] == ["stop"] and not sig.cbs and b.run_is_open is False
     return ("contradicted" if ok else "confirmed"), f"suspended={suspended} via_epilogue={via_epilogue}: raised={e!r}, emitted={[n for n, d in out]}, still subscribed={len(sig.cbs)}"
+
+
+def checkpoint_guard(model, info, art):
+    """C15: two runs open under different run keys, one of them between create and save: a checkpoint - whatever run key it carries -
+    must be refused (checkpoint state is global)"""
+    from bluesky import RunEngine
+    from bluesky.utils import IllegalMessageSequence
+    bkey, mkey = info.get("bundling_key"), info.get("message_key")
+    okey = "a" if bkey is None else None
+    RE = RunEngine({}, context_managers=[])
+    plan = [Msg("open_run", run=bkey), Msg("open_run", run=okey), Msg("create", name="primary", run=bkey), Msg("checkpoint", run=mkey)]
+    try:
+        RE(plan)
+    except IllegalMessageSequence as e:
+        return "contradicted", f"checkpoint(run={mkey!r}) while run {bkey!r} is bundling was refused: {e}"
+    except Exception as e:   # noqa
+        return "confirmed", f"checkpoint(run={mkey!r}) while run {bkey!r} is bundling raised {type(e).__name__}: {e}"
+    return "confirmed", f"checkpoint(run={mkey!r}) was accepted while run {bkey!r} was between create and save"
